@@ -7,18 +7,17 @@ package dht
 
 //verif:property C34
 //verif:bound one step (VerifC34Step): bucket 24 with exactly k entries and 0..r replacements: (k,r) = (0..3, 2), (8, 1) and (15..16, 1) in quick; thorough adds (4..14, 1), (2, 3), one further entry in bucket 23; the operation is add, stuff (list of 1..2 nodes for k <= 3, one node otherwise), delete, deleteReplace or bump with an arbitrary node: any id (two arbitrary id bytes: equal to an entry, to a replacement, to both, or fresh), hashing into the same bucket, into bucket 23, or the local node itself
-//verif:bound histories (VerifC34History): empty table, add x16 (bucket full), add of a 17th node, then every sequence of 3 (quick) / 4 (thorough) operations from {add, stuff, delete, deleteReplace} x {17th node, first filler, last filler}
+//verif:bound histories (VerifC34History): empty table, add x16 (bucket full), add of a 17th node, then every sequence of 3 operations from {add, stuff, delete, deleteReplace} x {17th node, first filler, last filler}
 //verif:assume the node hash (SHA-256 of the id, cached in Node.sha) is an injective function of the id: the harness builds ids whose bytes 0,1 are arbitrary and byte 2 selects the bucket, and sets sha = (0.., id[2], id[0], id[1]); local node id and hash are all-zero; two Node objects with the same id therefore carry the same hash
 //verif:assume pre-state of VerifC34Step: entries have pairwise distinct ids (entry i has id byte 0 = i+1, byte 1 arbitrary), replacements have pairwise distinct ids, both may overlap. Every such state is reachable: add the non-overlapping entries and fillers up to 16, add the replacement nodes (bucket full, so they go to the replacement list), delete the fillers, add the overlapping nodes again (not among the entries, space available: addFront without removal from the replacement list); any entry order is reachable by bumping
 //verif:outside closest / nodesByDistance.push, readRandomNodes, chooseBucketRefreshTarget (not part of the invariant), more than two buckets, the Network state machine that calls these operations
 //verif:assume package initialisation: the two var initialisers of udp.go that size packets through go-wire's reflection encoder and the regexp compilation in node.go are cut for the solver (wire.WriteJSON and regexp.MustCompile stubs); none of them is read by the table code
 //verif:override github.com/tendermint/go-wire.WriteJSON -> verifC34WriteJSON
 //verif:override regexp.MustCompile -> verifC34MustCompile
-//verif:obligation fn=VerifC34Step args=0,2,1;1,2,1;2,2,1;3,2,1 secs=900 validate=10
-//verif:obligation fn=VerifC34Step args=8,1,0;15,1,0;16,1,0 secs=900 validate=10
-//verif:obligation fn=VerifC34Step args=4,1,0;5,1,0;6,1,0;7,1,0;8,1,0;9,1,0;10,1,0;11,1,0;12,1,0;13,1,0;14,1,0;2,3,1 tier=thorough secs=3000 paths=4000000
-//verif:obligation fn=VerifC34History args=3 loops=400000 validate=10
-//verif:obligation fn=VerifC34History args=4 tier=thorough loops=400000 secs=3000 paths=2000000
+//verif:obligation fn=VerifC34Step args=0,2,1;1,2,1;2,2,1;3,2,1 validate=10 secs=3000
+//verif:obligation fn=VerifC34Step args=8,1,0;15,1,0;16,1,0 validate=10 secs=3000
+//verif:obligation fn=VerifC34Step args=4,1,0;5,1,0;6,1,0;7,1,0;8,1,0;9,1,0;10,1,0;11,1,0;12,1,0;13,1,0;14,1,0;2,3,1 tier=thorough paths=4000000 secs=3000
+//verif:obligation fn=VerifC34History args=3 loops=400000 validate=10 secs=3000
 
 import (
 	"io"
@@ -55,10 +54,10 @@ func verifC34Table() *Table {
 func verifC34Inv(tab *Table) {
 	total := 0
 	for d, b := range &tab.buckets {
-		total += len(b.entries)
 		if len(b.entries) == 0 {
 			continue
 		}
+		total += len(b.entries)
 		verifAssert(len(b.entries) <= bucketSize, "at-most-sixteen-entries")
 		for i, e := range b.entries {
 			verifAssert(e != nil, "entry-not-nil")
